@@ -404,6 +404,7 @@ type fdCall struct {
 	originKey   uint64
 	usesOrigin  bool
 
+	dstState      string // "" fresh | empty | zero | dirty | nan | reused (destination state, see fillDst)
 	hostile       bool   // the callback trashes its argument slices before returning
 	callerChanged string // set by run: which caller-owned argument was modified
 }
@@ -421,6 +422,24 @@ func trash(x []float64, key uint64) {
 			x[i] = math.NaN()
 		} else {
 			x[i] = 7e77 * float64(i+1)
+		}
+	}
+}
+
+// fillDst puts a destination of n elements into the given state.
+func fillDst(d []float64, state string) {
+	for i := range d {
+		switch state {
+		case "dirty", "reused":
+			d[i] = -3e55 * float64(i+1)
+		case "nan":
+			if i%2 == 0 {
+				d[i] = vrt.Taint(i)
+			} else {
+				d[i] = 4.25e11
+			}
+		default:
+			d[i] = 0
 		}
 	}
 }
@@ -487,14 +506,54 @@ func (fc *fdCall) run(concurrent bool, l *callLedger, abs bool) []float64 {
 		x := append([]float64(nil), fc.x...)
 		switch fc.routine {
 		case "Gradient":
-			out := fd.Gradient(nil, wrapV(fdVec), x, st)
+			var gdst []float64
+			if fc.dstState != "" && fc.dstState != "empty" {
+				gdst = make([]float64, fc.n)
+				fillDst(gdst, fc.dstState)
+				if fc.dstState == "reused" {
+					x2 := append([]float64(nil), fc.x...)
+					for i := range x2 {
+						x2[i] += 0.37
+					}
+					fd.Gradient(gdst, fdVec, x2, &fd.Settings{Formula: form, Step: fc.step, Concurrent: concurrent})
+				}
+			}
+			out := fd.Gradient(gdst, wrapV(fdVec), x, st)
+			if gdst != nil && &out[0] != &gdst[0] {
+				fc.callerChanged = "dst (result not stored in place)"
+			}
 			if !sameBits(x, fc.x) {
 				fc.callerChanged = "x"
 			}
 			return out
 		case "Hessian":
 			h := mat.NewSymDense(fc.n, nil)
+			if fc.dstState == "empty" {
+				h = &mat.SymDense{}
+			} else if fc.dstState != "" {
+				fillDst(h.RawSymmetric().Data, fc.dstState)
+				if fc.dstState == "reused" {
+					x2 := append([]float64(nil), fc.x...)
+					for i := range x2 {
+						x2[i] += 0.37
+					}
+					fd.Hessian(h, fdVec, x2, &fd.Settings{Formula: form, Step: fc.step, Concurrent: concurrent})
+				}
+			}
 			fd.Hessian(h, wrapV(fdVec), x, st)
+			if fc.dstState != "" {
+				// only the upper triangle is the matrix; report it densely
+				out := make([]float64, 0, fc.n*fc.n)
+				for i := 0; i < fc.n; i++ {
+					for j := 0; j < fc.n; j++ {
+						out = append(out, h.At(i, j))
+					}
+				}
+				if !sameBits(x, fc.x) {
+					fc.callerChanged = "x"
+				}
+				return out
+			}
 			if !sameBits(x, fc.x) {
 				fc.callerChanged = "x"
 			}
@@ -578,6 +637,16 @@ func (fc *fdCall) run(concurrent bool, l *callLedger, abs bool) []float64 {
 		for i := 0; i < fc.m; i++ {
 			for j := 0; j < fc.n; j++ {
 				dst.Set(i, j, 7.5) // must be overwritten
+			}
+		}
+		if fc.dstState != "" && fc.dstState != "empty" {
+			fillDst(dst.RawMatrix().Data, fc.dstState)
+			if fc.dstState == "reused" {
+				x2 := append([]float64(nil), fc.x...)
+				for i := range x2 {
+					x2[i] += 0.37
+				}
+				fd.Jacobian(dst, fdJac, x2, &fd.JacobianSettings{Formula: form, Step: fc.step, Concurrent: concurrent})
 			}
 		}
 		var origin0 []float64
@@ -704,7 +773,34 @@ func originKnownDocumentedAsIgnored() bool {
 	return false
 }
 
+// checkWrongSizedDst: a destination of the wrong size must be rejected with
+// the documented panic, serially and concurrently.
+func checkWrongSizedDst(c *vrt.Ctx) {
+	x := []float64{0.3, -0.2, 0.9}
+	for _, conc := range []bool{false, true} {
+		cls := "serial"
+		if conc {
+			cls = "concurrent"
+		}
+		try := func(routine string, f func()) {
+			c.Eval("fd."+routine+"|"+cls+",wrong-sized-dst", true)
+			if p := vrt.TryFast(f); p == nil {
+				c.Violationf("fd."+routine+"|"+cls+",wrong-sized-dst|no-panic", nil, "fd.%s accepted a destination whose size does not match len(x) = 3 (Concurrent=%v); the documentation promises a panic", routine, conc)
+			} else if p.Runtime {
+				c.Violationf("fd."+routine+"|"+cls+",wrong-sized-dst|runtime-panic", nil, "fd.%s with a wrong-sized destination: runtime panic %q instead of the documented one", routine, p.Msg)
+			}
+		}
+		try("Gradient", func() { fd.Gradient(make([]float64, 2), fdVec, x, &fd.Settings{Concurrent: conc}) })
+		try("Gradient", func() { fd.Gradient(make([]float64, 4), fdVec, x, &fd.Settings{Concurrent: conc}) })
+		try("Hessian", func() { fd.Hessian(mat.NewSymDense(2, nil), fdVec, x, &fd.Settings{Concurrent: conc}) })
+		try("Hessian", func() { fd.Hessian(mat.NewSymDense(4, nil), fdVec, x, &fd.Settings{Concurrent: conc}) })
+		try("Jacobian", func() { fd.Jacobian(mat.NewDense(2, 2, nil), fdJac, x, &fd.JacobianSettings{Concurrent: conc}) })
+		try("Jacobian", func() { fd.Jacobian(mat.NewDense(2, 4, nil), fdJac, x, &fd.JacobianSettings{Concurrent: conc}) })
+	}
+}
+
 func runFD(c *vrt.Ctx, race bool) {
+	checkWrongSizedDst(c)
 	callsList := buildFDCalls(c, race)
 	reps := c.Pick(2, 16)
 	if race {
@@ -780,9 +876,76 @@ func runFD(c *vrt.Ctx, race bool) {
 					}
 				}
 			}
+			// Destination-state dimension: the result is "stored in dst"
+			// whatever dst held before (empty, zero, finite garbage,
+			// NaN-tainted, or the result of a previous call at another x).
+			dstCheck := func(conc bool, path string) {
+				var states []string
+				switch fc.routine {
+				case "Gradient", "Hessian":
+					states = []string{"empty", "zero", "dirty", "nan", "reused"}
+				case "Jacobian":
+					states = []string{"zero", "dirty", "nan", "reused"}
+				default:
+					return
+				}
+				// one state per call and repetition, all states over the run
+				state := states[(ci+rep)%len(states)]
+				ref := v0
+				if fc.routine == "Hessian" {
+					// v0 is the raw backing data of a zeroed fresh dst: expand symmetric
+					ref = make([]float64, 0, fc.n*fc.n)
+					for i := 0; i < fc.n; i++ {
+						for j := 0; j < fc.n; j++ {
+							a, b := i, j
+							if a > b {
+								a, b = b, a
+							}
+							ref = append(ref, v0[a*fc.n+b])
+						}
+					}
+				}
+				fc.dstState = state
+				vd := fc.run(conc, nil, false)
+				fc.dstState = ""
+				ncalls++
+				cls := path + ",dst-" + state
+				c.Eval(fmt.Sprintf("fd.%s|%s|%s%s|n=%d", fc.routine, cls, fc.formula.name, okCls, fc.n), true)
+				ddesc := fmt.Sprintf("%s Concurrent=%v GOMAXPROCS=%d destination state %q", fc, conc, p, state)
+				if fc.callerChanged != "" {
+					c.Violationf(base+cls+"|caller-argument-modified", rp, "%s: %s", ddesc, fc.callerChanged)
+					return
+				}
+				if len(vd) != len(ref) {
+					c.Violationf(base+cls+"|result-shape-differs-from-fresh-dst", rp, "%s: %d values, want %d", ddesc, len(vd), len(ref))
+					return
+				}
+				for i := range vd {
+					bad := false
+					if !conc || p == 1 {
+						bad = math.Float64bits(vd[i]) != math.Float64bits(ref[i])
+					} else {
+						mi := i
+						if fc.routine == "Hessian" {
+							a, b := i/fc.n, i%fc.n
+							if a > b {
+								a, b = b, a
+							}
+							mi = a*fc.n + b
+						}
+						band := (2*float64(fc.terms) + 16) * u64 * math.Abs(mag[mi])
+						bad = !(math.Abs(vd[i]-ref[i]) <= band)
+					}
+					if bad {
+						c.Violationf(base+cls+"|result-differs-from-fresh-dst", rp, "%s: element %d = %v, with a fresh destination the serial result is %v (old contents of dst leak into the result)", ddesc, i, vd[i], ref[i])
+						return
+					}
+				}
+			}
 			if rep == 0 {
 				hostileCheck(false, "serial")
 			}
+			dstCheck(false, "serial")
 			// concurrent run
 			r := c.RNG("fd", rep, ci)
 			pt := newPerturb(r, !race)
@@ -847,6 +1010,11 @@ func runFD(c *vrt.Ctx, race bool) {
 						maxRatio = d / band
 					}
 				}
+			}
+			if p == 1 {
+				dstCheck(true, "serial")
+			} else {
+				dstCheck(true, path)
 			}
 			if p == 1 {
 				hostileCheck(true, "serial") // GOMAXPROCS=1 takes the serial code
